@@ -1092,3 +1092,28 @@ Theorem C05_db_covered_histories_on_storage_partial :
                         frame (hp sp) (hp sp') (sd_foot root w) (sd_foot root w').
 Proof. exact so_covered_on_storage. Qed.
 Print Assumptions C05_db_covered_histories_on_storage_partial.
+
+(* C05 END TO END for covered histories (theories/StoredDbOpsLinkFinal.v): on the model of storage.rs, from a state (no
+   transaction open) refining a record map that holds d (HInv d), run so_open and the programs of a covered history l, then
+   a maintenance operation o (optimize_storage / drop + open / backup + open): unless the storage panics, the result is a
+   state holding dN = the fold of exec rv_fixed over l, and the database LOADED from it (load_db: what DbImpl::open
+   rebuilds) is dN up to sd_eqv and answers every order-independent read-only query (sd_query_ok) EXACTLY as dN does —
+   "after any history of mutating queries, reopening / optimizing / backing up yields a database on which the queries
+   return the same", for the covered histories.  _partial: as C05_db_covered_histories_preserve_stored_db_partial. *)
+From Agdb Require Import StoredDbOpsLinkFinal.
+Theorem C05_db_covered_histories_then_reopen_partial :
+  forall (ops : store_ops cdata) (fl : bool), StorageProofs.kind ops fl ->
+  forall rv s sp root d l o,
+    Rel s sp -> sdepth sp = 0 -> stored_db (hp sp) root d -> HistoryAtomicProofs.HInv d -> so_covered_all rv_fixed d l ->
+    cv_is_maint o = true ->
+    let r := cp_run (st_step cdata ops) (h <~ so_open root ;; cq_runs h l) s in
+    let dN := fst (cq_model rv_fixed d l) in
+    snd r = CrDead \/
+    snd (st_step cdata ops (fst r) o) = ObPanic \/
+    exists h' sp2 d1,
+      snd r = CrOk (h', snd (cq_model rv_fixed d l)) /\
+      Rel (fst (st_step cdata ops (fst r) o)) sp2 /\ sdepth sp2 = 0 /\ stored_db (hp sp2) root dN /\
+      load_db (sm sp2) root = Some d1 /\ sd_eqv dN d1 /\
+      forall q, sd_query_ok q -> snd (Queries.exec rv d1 q) = snd (Queries.exec rv dN q).
+Proof. exact so_covered_then_maintenance. Qed.
+Print Assumptions C05_db_covered_histories_then_reopen_partial.
